@@ -14,20 +14,23 @@ var dModes = []int{0o755, 0o700, 0o555, 0o500, 0o777, 0o750}
 var fracs = []int64{0, 400000000, 500000000, 600000000, 499999999, 999999999}
 
 type knobs struct {
-	maxNodes     int
-	inLinks      bool // in-tree relative links
-	absInLinks   bool // in-tree absolute links
-	outLinks     bool // out-of-tree links (file, dir, dangling, sibling-prefix)
-	hostileLinks bool // cycles, loops, fifo targets
-	fifos        bool
-	rules        bool
-	metaRules    bool // regex metacharacters in rule patterns
-	degenRules   bool // blank / whitespace-only / lone ! lines
-	specials     bool // special names
-	oddModes     bool
-	bigFile      bool
-	extBack      bool // links inside ext dirs pointing back into the tree
-	concShared   bool // several callers share one Packer and pack at the same time (needs files big enough to yield inside)
+	maxNodes      int
+	inLinks       bool // in-tree relative links
+	absInLinks    bool // in-tree absolute links
+	outLinks      bool // out-of-tree links (file, dir, dangling, sibling-prefix)
+	hostileLinks  bool // cycles, loops, fifo targets
+	fifos         bool
+	rules         bool
+	metaRules     bool // regex metacharacters in rule patterns
+	degenRules    bool // blank / whitespace-only / lone ! lines
+	specials      bool // special names
+	oddModes      bool
+	bigFile       bool
+	extBack       bool // links inside ext dirs pointing back into the tree
+	concShared    bool // several callers share one Packer and pack at the same time (needs files big enough to yield inside)
+	viaRootName   bool // in-tree links spelled by way of the source directory's own name (../src/x)
+	nestedDeref   bool // an out-of-tree directory that itself contains a link to another out-of-tree directory
+	oddDirModes   bool // directories the (unprivileged) user can list but not search, or not read at all
 	failedEarlier bool // an earlier Pack on the same Packer fails half-way inside a dereferenced directory
 }
 
@@ -52,6 +55,7 @@ func Gen(seed uint64, profile string) *Scenario {
 		k.outLinks = r.Chance(1, 6)
 	case "links":
 		k.inLinks, k.absInLinks, k.outLinks, k.extBack = true, r.Chance(1, 2), r.Chance(3, 4), r.Chance(1, 3)
+		k.viaRootName, k.nestedDeref = r.Chance(1, 6), r.Chance(1, 5)
 		k.rules, k.specials = r.Chance(1, 4), r.Chance(1, 4)
 	case "spell":
 		k.failedEarlier = r.Chance(1, 6)
@@ -70,6 +74,7 @@ func Gen(seed uint64, profile string) *Scenario {
 	}
 	if sc.UID != 0 {
 		k.oddModes = false
+		k.oddDirModes = profile == "hostile" && r.Chance(1, 2)
 	}
 	if k.failedEarlier {
 		k.outLinks = true
@@ -140,6 +145,11 @@ func genTree(r *simkit.RNG, sc *Scenario, k *knobs) {
 		add(TNode{Root: "ext", Path: "chain2", Kind: "link", Target: "file"})
 		add(TNode{Root: "ext", Path: "dirlink", Kind: "link", Target: "dir"})
 		add(TNode{Root: "ext", Path: "emptyd", Kind: "dir", Mode: 0o755})
+		if k.nestedDeref {
+			add(TNode{Root: "ext", Path: "other", Kind: "dir", Mode: 0o755})
+			add(TNode{Root: "ext", Path: "other/o.txt", Kind: "file", Mode: 0o644, Tok: "OUT-10;"})
+			add(TNode{Root: "ext", Path: "dir/nested", Kind: "link", Target: "../other"})
+		}
 		extFiles = []string{"file", "dir/f", "chain1"}
 		extDirs = []string{"dir", "dirlink", "dir/sub", "emptyd"}
 		if k.extBack {
@@ -208,7 +218,9 @@ func genTree(r *simkit.RNG, sc *Scenario, k *knobs) {
 			files = append(files, p)
 		case 1:
 			nd := TNode{Root: "src", Path: p, Kind: "dir", Mode: 0o755}
-			if k.oddModes && r.Chance(1, 2) {
+			if k.oddDirModes && r.Chance(1, 2) {
+				nd.Mode = simkit.Pick(r, []int{0o444, 0o400, 0o000, 0o100, 0o300, 0o600})
+			} else if k.oddModes && r.Chance(1, 2) {
 				nd.Mode = simkit.Pick(r, dModes)
 			} else if r.Chance(1, 5) {
 				nd.Mode = simkit.Pick(r, []int{0o700, 0o750, 0o555})
@@ -222,12 +234,15 @@ func genTree(r *simkit.RNG, sc *Scenario, k *knobs) {
 			var opts []string
 			if k.inLinks {
 				opts = append(opts, "sib", "file", "dir", "dangle", "updown", "chain")
+				if k.viaRootName {
+					opts = append(opts, "via-root-name")
+				}
 			}
 			if k.absInLinks {
 				opts = append(opts, "abs-in")
 			}
 			if k.outLinks {
-				opts = append(opts, "out-file", "out-dir", "out-dangle", "sibling-prefix", "out-abs", "out-chain", "hist-ext")
+				opts = append(opts, "out-file", "out-dir", "out-dangle", "sibling-prefix", "out-abs", "out-chain", "hist-ext", "parent")
 			}
 			if k.hostileLinks {
 				opts = append(opts, "cycle", "self", "loopdir", "fifo", "fifodir", "dircycle")
@@ -284,6 +299,14 @@ func genTree(r *simkit.RNG, sc *Scenario, k *knobs) {
 				nd.Target = up + "../ext/chain1"
 			case "hist-ext":
 				nd.Target = up + "../hist3/ext/file"
+			case "parent":
+				nd.Target = up + ".."
+			case "via-root-name":
+				// leaves the tree and comes back in by way of the source directory's own name
+				if len(files) == 0 {
+					continue
+				}
+				nd.Target = up + "../src/" + simkit.Pick(r, files)
 			case "cycle":
 				nd.Target = up + "../ext/cyc1"
 			case "self":
@@ -394,6 +417,15 @@ func genRules(r *simkit.RNG, sc *Scenario, k *knobs) string {
 		}
 		lines = append(lines, p)
 	}
+	// a directory rule naming a link to an out-of-tree directory, and a later rule re-including something below it
+	if k.outLinks && r.Chance(1, 3) {
+		for _, n := range sc.Tree {
+			if n.Root == "src" && n.Kind == "link" && strings.Contains(n.Target, "ext/dir") && !strings.Contains(n.Target, "dir/") {
+				lines = append(lines, n.Path+"/", "!"+n.Path+"/"+simkit.Pick(r, []string{"f", "secret", "sub/g"}))
+				break
+			}
+		}
+	}
 	return strings.Join(lines, "\n") + simkit.Pick(r, []string{"\n", "", "\n\n"})
 }
 
@@ -414,6 +446,15 @@ func genRuns(r *simkit.RNG, sc *Scenario, k *knobs, profile string) {
 	run := func() PackRun {
 		return PackRun{Spelling: "abs", Cwd: "/cwd"}
 	}
+	defer func() {
+		// a link to the parent of the source directory: dereferencing it would copy the
+		// whole arena (the auxiliary trees included), which the provenance model does not describe
+		for _, n := range sc.Tree {
+			if n.Root == "src" && n.Kind == "link" && (n.Target == ".." || strings.HasSuffix(n.Target, "/..")) {
+				sc.Opts.Deref = false
+			}
+		}
+	}()
 	sc.SharedPacker = r.Chance(1, 3)
 	if k.outLinks && r.Chance(1, 6) {
 		// a relative allow-list entry, and a Packer that has already served another root
@@ -461,7 +502,7 @@ func genRuns(r *simkit.RNG, sc *Scenario, k *knobs, profile string) {
 			sc.SharedPacker = true
 			sc.History = append(sc.History, "shared:stale-rules")
 		case 0, 1:
-			sc.History = append(sc.History, simkit.Pick(r, []string{"neg-first", "empty-rules", "other-opts", "dot-other-tree"}))
+			sc.History = append(sc.History, simkit.Pick(r, []string{"neg-first", "empty-rules", "other-opts", "dot-other-tree", "negated-twin-rules"}))
 			sc.Runs = append(sc.Runs, run()) // same pack again after the history
 			if sc.History[len(sc.History)-1] == "dot-other-tree" {
 				sc.Runs[len(sc.Runs)-1].Spelling, sc.Runs[len(sc.Runs)-1].Cwd = "rel", "/w/src"
@@ -493,7 +534,12 @@ func genRuns(r *simkit.RNG, sc *Scenario, k *knobs, profile string) {
 			sc.Runs = append(sc.Runs, p)
 		}
 		for i := r.Intn(3); i > 0; i-- {
-			sc.History = append(sc.History, simkit.Pick(r, []string{"neg-first", "other-opts", "empty-rules", "chdir:/tmp", "same", "dot-other-tree"}))
+			sc.History = append(sc.History, simkit.Pick(r, []string{"neg-first", "other-opts", "empty-rules", "chdir:/tmp", "same", "dot-other-tree", "negated-twin-rules"}))
+		}
+		if k.outLinks && r.Chance(1, 3) {
+			// a relative allow-list entry: it means <source>/ext, whatever the working directory
+			sc.Opts.Allow = []string{"ext"}
+			sc.Opts.Legacy = false
 		}
 		if k.failedEarlier {
 			sc.SharedPacker = true
